@@ -58,12 +58,14 @@ CHECKS = {
              "public state are validated event by event; TLC-simulated behaviours are executed on a real ICG_Gym fed with the model's games.",
         note="n<=5 on the real code; float families on a grid with stated tolerances; actions are valid ones (the property's premise)"),
     "C13": dict(
-        level="model_checking", design="§5 C13", technique="TLC undo invariant at every reachable environment state (MC_Gym) and expected-greedy model (MC_Search) + trace validation of solver queries with observed reward ranks",
+        level="model_checking", design="§5 C13", technique="TLC undo invariant at every reachable environment state (MC_Gym) + trace validation of solver queries with observed reward ranks and of the expected-greedy search against the exhaustive optimum (Trace_Gym, Trace_Search)",
         text="At every state of recorded walks the driver probes each valid action through the public step/unstep API (logged as ordinary events, so the undo "
              "property is checked there too), logs the dense ranks of the float rewards, then queries the real solver; TLC checks that the choice is the "
              "lowest-index valid action that is maximal (greedy), minimal (worst-greedy), of largest size (largest) or merely valid (random), that the environment "
              "(table bits, counters, hidden game object, generator call count) is untouched, and that the observed ranks agree with the specification's exact gaps. "
-             "The model proves undo restores the environment at every reachable state.",
+             "The model proves undo restores the environment at every reachable state. The real expected-greedy search (get_greedy_rewards, with and without random tie-breaks, 1/2/4 processes) is "
+             "validated: no coalition repeated, each extension minimises the mean gap over the sampled games, rows are the gaps of the chosen prefix, curve non-increasing, never below the "
+             "exhaustive optimum (computed by TLC) and equal to it for zero and one reveals.",
         note="solver rule judged on the rewards the environment actually returned; n=3 all states, n=4..5 sampled"),
     "C16": dict(
         level="model_checking", design="§5 C16", technique="TLC on MC_Gym's linear view (every allowed candidate) + trace validation of real ICG_Gym_Linear episodes with the inner environment logged",
@@ -123,6 +125,14 @@ CHECKS = {
              "is also run on the TLA+ file-system model, where TLC places death / interruption / spontaneous buffer flushes after every prefix (including points with no Python-level hook); "
              "reference programs (in-place, temp-then-replace, replace-before-close, unlink-then-rename) self-test the model.",
         note="process death only (no power loss / fsync semantics); leftover scratch files are allowed"),
+    "C11": dict(
+        level="model_checking", design="§5 C11", technique="TLC on MC_Search (process-pool model: chunking, any worker schedule, chunk-local game copies) + trace validation of the real search for several worker counts, MetaGame and best-states (Trace_Search)",
+        text="TLC checks on the pool model that the enumeration is exactly the set of reveal sets of size <= k without duplicates, that the chunks partition the task list, and that for every "
+             "number of workers, chunking and schedule each set is evaluated exactly once with the gap of (starting knowledge + set); the real get_exploitabilities_of_action_sequences is run with "
+             "1..4 (quick) / 1..16 (thorough) processes on exact games with random starting knowledge, size limits, all gaps and computers: TLC demands every reveal set exactly once, each "
+             "reported gap = gap of exactly that knowledge (certified integer numerators), bit-identical results across process counts; MetaGame.get_value returns the same quantity; "
+             "best-states rows are the per-game gaps of a set of that size attaining the minimum mean, with a non-increasing curve for in-class games.",
+        note="real pool schedules are not controllable (covered on the model); n=3,4"),
 }
 
 NOT_YET = "check not built yet (build in progress; see DESIGN.md §5 for the plan)"
